@@ -42,6 +42,7 @@ type exchange struct {
 	errType types.Specifier // RHP3: the error's type and data members, when the host sets them
 	errData []byte
 	errSet  bool
+	atLimit bool // RHP2: the response frame is exactly as long as the reader's limit
 	reqEnc  []byte
 	respEnc []byte
 	maxReq  uint64 // limit the reader passes
@@ -145,7 +146,14 @@ func buildExchanges(t *sim.Tape, v int, overlimit bool) []exchange {
 			ex.maxResp = uint64(len(ex.respEnc)) + uint64(pick(t, 0, 1, 7, 8, 9))
 			ex.name += "(at its limit)"
 		}
-		if t.Chance(1, 6) {
+		if frame := uint64(12 + 1 + len(ex.respEnc) + 16); v == 2 && frame > 4096 && t.Chance(1, 2) {
+			// RHP2 limits are on the frame (nonce, response flag, object, MAC): one
+			// that is exactly as long as the limit is within it
+			ex.maxResp = frame
+			ex.name += "(at its limit)"
+			ex.atLimit = true
+		}
+		if !ex.atLimit && t.Chance(1, 6) {
 			ex.respErr = string(hexish(sim.HashBytes("err", uint64(i), 1, t.Range(1, 100))))
 			if len(ex.respErr) > 8 && t.Chance(1, 2) {
 				ex.respErr = ex.respErr[:len(ex.respErr)/2] + ": " + ex.respErr[len(ex.respErr)/2:]
@@ -295,6 +303,9 @@ func runRHP2(s *Session, exs []exchange, wrongKey bool) {
 				e.logf("ex %d %s: read error", i, ex.name)
 				return
 			default:
+				if ex.atLimit {
+					e.inc("rhp2.at-limit-read")
+				}
 				if ex.respErr != "" {
 					e.violate("C19", "rhp2-error-lost", fmt.Sprintf("exchange %d: host wrote error %q, renter decoded a response", i, ex.respErr))
 				} else if !bytes.Equal(encP(got), ex.respEnc) {
